@@ -573,6 +573,9 @@ pub fn run(ctx: Ctx) -> ! {
     if ctx.replay.is_some() {
         replay(ctx, &root);
     }
+    if std::env::var("VERIF_PROBE").is_ok() {
+        probe(&root);
+    }
     let quick = ctx.quick();
     // (full-sweep depth, strided depth, stride, edge, wall cap)
     let (full_depth, max_depth, stride, edge, cap_s): (usize, usize, u64, u64, f64) = if quick { (0, 1, 17, 50, 52.0) } else { (1, 2, 53, 20, 1080.0) };
@@ -814,4 +817,33 @@ fn replay(ctx: Ctx, root: &Root) -> ! {
     }
     ctx.merge(l);
     ctx.finish(Level::FaultEnumeration, "replay", 1, false, Map::new(), &[])
+}
+
+fn probe(root: &Root) -> ! {
+    use std::time::Instant;
+    let sim = sim_from(&root.snap);
+    let states = vec![make_state(&sim, vec![])];
+    let sj = prepare_subject(root, &states, 0, Op::Menu(Tx::TransferF)).unwrap().unwrap();
+    let st = &states[0];
+    let n = 400u64;
+    let t = Instant::now();
+    for _ in 0..n { with_sim(&st.snap, |_s| {}); }
+    println!("restore: {:?}", t.elapsed() / n as u32);
+    let t = Instant::now();
+    for k in 0..n { with_sim(&st.snap, |s| { let _ = run_mode(s, &sj, Mode::Fault(1500 + k)); }); }
+    println!("restore+exec: {:?}", t.elapsed() / n as u32);
+    let after = with_sim(&st.snap, |s| { let _ = run_mode(s, &sj, Mode::Fault(1500)); s.substate_db().clone() });
+    let t = Instant::now();
+    for _ in 0..n { let _ = db_diff(&st.db, &after); }
+    println!("db_diff: {:?}", t.elapsed() / n as u32);
+    let t = Instant::now();
+    for _ in 0..n { let _ = after == st.db; }
+    println!("db_eq: {:?}", t.elapsed() / n as u32);
+    let t = Instant::now();
+    for _ in 0..n { let _ = scan_totals(&after); }
+    println!("scan_totals: {:?}", t.elapsed() / n as u32);
+    let t = Instant::now();
+    for k in 0..n { let mut l = Local::new(); run_case(st, &sj, Mode::Fault(1500 + k), &mut l, true); }
+    println!("run_case full: {:?}", t.elapsed() / n as u32);
+    std::process::exit(0)
 }
